@@ -31,7 +31,8 @@ def Rec (c : Call) : Ev → Prop
       c.fn = callee ∧ c.pos = { startLine := sl, startCol := sc, stopLine := el, stopCol := sc + callee.utf8ByteSize } ∧
       c.params = args.map fun a => { typeType := "", typeValue := a }
   | .creator _ _ (i :: _) pos => c.type = "CreatorClass" ∧ c.node = i ∧ c.fn = "" ∧ c.pos = buildPosition pos i
-  | .mref _ mn _ => c.type = "lambda" ∧ c.fn = mn
+  | .mref _ mn pos => c.type = "lambda" ∧ c.fn = mn ∧
+      c.pos = { startLine := pos.startLine, startCol := pos.startCol, stopLine := pos.startLine, stopCol := pos.startCol + mn.utf8ByteSize }
   | _ => False
 
 /-- `cs` are, one for one and in order, records of the events `es` -/
@@ -144,7 +145,7 @@ theorem body_step (st : FSt) (e : Ev) (hb : bodyEv e = true) (hc : st.hasEnterCl
     exact ⟨[_], addCall_eff st _ f hf, by simp only [isInv, if_true]; exact ⟨_, rfl, rfl, rfl, rfl⟩⟩
   | mref x mn pos =>
     simp only [onEv]
-    exact ⟨[_], addCall_eff st _ f hf, by simp only [isInv, if_true]; exact ⟨_, rfl, rfl, rfl⟩⟩
+    exact ⟨[_], addCall_eff st _ f hf, by simp only [isInv, if_true]; exact ⟨_, rfl, rfl, rfl, rfl⟩⟩
   | enterBlock =>
     refine ⟨[], ?_, by simp [isInv]⟩
     simp only [onEv]; split
